@@ -1,18 +1,8 @@
 import MythVerif.Proofs.WsQueueTsoTac
-/-! Preservation lemmas of the TSO invariant (drain of an owner `base` store; no buffered unlock). -/
+/-! Preservation lemmas of the TSO invariant (the owner never has a buffered unlock with the code's fences). -/
 namespace MythVerif.WsqTso
 open MythVerif.Wsq
 
-
-set_option maxHeartbeats 4000000 in
-theorem f_O_base (s s' : St) (v : Int) (rest : List Sto) : Inv s → s.bufO = .base v :: rest →
-    s' = applySto { s with bufO := rest } (.base v) → Inv s' := by
-  intro h hb hs
-  subst hs
-  simp only [applySto]
-  cases hpc : s.opc
-  all_goals (cases h; simp only [hpc, ownerLocked, carry, resetting, ownerFlight] at *)
-  all_goals tso_finish3
 
 set_option maxHeartbeats 4000000 in
 theorem f_O_unlock (s s' : St) (rest : List Sto) : Inv s → s.bufO = .unlock :: rest →
@@ -21,6 +11,6 @@ theorem f_O_unlock (s s' : St) (rest : List Sto) : Inv s → s.bufO = .unlock ::
   exfalso
   cases hpc : s.opc
   all_goals (cases h; simp only [hpc, ownerLocked, carry, resetting, ownerFlight] at *)
-  all_goals grind [CarryShape, Pu2Shape, PofShape, Po6Shape, Po8Shape, Po9Shape, InsShape]
+  all_goals tso_absurd
 
 end MythVerif.WsqTso
